@@ -198,6 +198,14 @@ pub fn forge(w: &World, m: &Msg, by: Option<usize>, ops: &[ForgeOp]) -> Option<M
             }
         }
     }
+    // a pair of ops can cancel out (e.g. the same signature swap twice): then nothing was altered
+    if nm.must_reject.is_some() && nm.particle.is_none() {
+        if let (Ok(a), Ok(b)) = (interp::decode(&m.data), interp::decode(&bytes)) {
+            if interp::data_json(&a.data) == interp::data_json(&b.data) && a.version == b.version {
+                nm.must_reject = None;
+            }
+        }
+    }
     nm.data = Rc::new(bytes);
     let _ = json!(null);
     let _: Option<Value> = None;
